@@ -37,8 +37,8 @@ def knapsack_text(cap, items, comment=False):
 
 
 def gen_knapsack(r, i):
-    shape = ["plain", "plain", "ties", "zero_weight", "single", "ratio_floor", "ratio_floor2", "tight", "zero_cap",
-             "negative_profit"][i % 10]
+    shape = ["plain", "weightless_late", "ties", "zero_weight", "single", "ratio_floor", "ratio_floor2", "tight", "zero_cap",
+             "negative_profit", "plain", "weightless_late"][i % 12]
     cls = "core"
     if shape == "single":
         items = [(r.range(0, 20), r.range(0, 10))]
@@ -54,6 +54,18 @@ def gen_knapsack(r, i):
         n = r.range(1, 8)
         items = [(r.range(0, 25), 0 if r.chance(1, 3) else r.range(1, 10)) for _ in range(n)]
         cap = r.range(0, 1 + sum(w for _, w in items))
+    elif shape == "weightless_late":
+        # a weightless item of small profit next to two mutually exclusive items A (better ratio) and B (fills the sack, larger
+        # profit): the optimum is B + the weightless item, and a state of residual capacity 0 still has profit to collect
+        cap = r.range(2, 9); wa = r.range(1, cap - 1)
+        q = r.range(1, 4)
+        pb = q * cap + r.range(0, cap - 1)
+        pa = min(pb - 1, (pb * wa) // cap + r.range(1, 3))
+        items = [(pa, wa), (pb, cap)]
+        for _ in range(r.range(0, 2)):
+            xw = r.range(1, 9); items.append((max(1, (pb * xw) // cap - r.range(0, 4)), xw))
+        r.shuffle(items)
+        items.insert(r.below(len(items) + 1), (r.range(1, max(1, q)), 0))
     elif shape == "zero_cap":
         n = r.range(1, 6)
         items = [(r.range(0, 25), r.range(0, 3)) for _ in range(n)]
@@ -572,6 +584,8 @@ def corpus(example):
             ("core", knapsack_text(12, [(5, 5), (4, 2), (55, 55), (7, 7)])),         # optimum 12, width 1 prints 11: (7/55)*55 = 6.999..
             ("core", knapsack_text(18, [(8, 2), (98, 49), (7, 1), (32, 16)])),       # optimum 40, width 1 prints 39
             ("core", knapsack_text(15, [(11, 5), (52, 26), (30, 15), (18, 9)])),     # optimum 30, width 1 prints 29
+            ("negative-profit", knapsack_text(13, [(11, 5), (-7, 1), (16, 9), (3, 3), (18, 4)])),   # optimum 34, width 1 printed 32 (fixed e252898)
+            ("core", knapsack_text(3, [(4, 2), (5, 3), (1, 0)])),                    # weightless item listed last: optimum 6
         ],
         "misp": [("negative-weight", misp_text(3, {0: 5, 1: -6, 2: 7}, [(1, 2), (2, 0)]))],          # optimum 7, width 1 prints 5
         "max2sat": [
